@@ -5,7 +5,7 @@ use anyhow::{anyhow, bail, Context, Result};
 use futures::{future::join_all, stream::FuturesUnordered, SinkExt, StreamExt};
 use log::{error, info};
 use quinn::{Connecting, Connection, Endpoint, IdleTimeout, VarInt};
-use selium_protocol::error_codes::{INVALID_TOPIC_NAME, UNKNOWN_ERROR};
+use selium_protocol::error_codes::{INVALID_TOPIC_NAME, TOPIC_KIND_MISMATCH, UNKNOWN_ERROR};
 use selium_protocol::{error_codes, BiStream, ErrorPayload, Frame, TopicName};
 use selium_std::errors::SeliumError;
 use std::net::SocketAddr;
@@ -183,7 +183,7 @@ async fn handle_stream(
             use selium_protocol::error_codes::CLOUD_AUTH_FAILED;
 
             match do_cloud_auth(&_connection, topic, &topics).await {
-                Ok(_) => stream.send(Frame::Ok).await?,
+                Ok(_) => (),
                 Err(e) => {
                     debug!("Cloud authentication error: {e:?}");
 
@@ -209,7 +209,6 @@ async fn handle_stream(
                 stream.send(Frame::Error(payload)).await?;
                 return Ok(());
             }
-            stream.send(Frame::Ok).await?;
         }
 
         let mut ts = topics.lock().await;
@@ -239,6 +238,18 @@ async fn handle_stream(
         // first: a topic whose registration queue is full must only hold up its own peers.
         let mut tx = ts.get(topic).unwrap().clone();
         drop(ts);
+
+        // A topic is pub/sub or request/reply for its whole life: a stream of the other
+        // pattern is refused, and only a stream that will be served is told Ok.
+        if !tx.accepts(&frame) {
+            let payload = ErrorPayload {
+                code: TOPIC_KIND_MISMATCH,
+                message: "Topic is already in use with the other messaging pattern".into(),
+            };
+            stream.send(Frame::Error(payload)).await?;
+            return Ok(());
+        }
+        stream.send(Frame::Ok).await?;
 
         match frame {
             Frame::RegisterPublisher(_) => {
